@@ -154,11 +154,15 @@ type tseg struct {
 	lit  string
 	verb string
 	val  ssa.Value
+	bits int // bit size given to a strconv formatter (0 = not applicable)
 }
 
 func (t tseg) String() string {
 	if t.val == nil {
 		return fmt.Sprintf("%q", t.lit)
+	}
+	if t.bits != 0 {
+		return fmt.Sprintf("%%%s/%d(…)", t.verb, t.bits)
 	}
 	return "%" + t.verb + "(…)"
 }
@@ -226,6 +230,26 @@ func (a *FnA) template(v ssa.Value) []tseg {
 				case sc.String() == "strconv.Quote":
 					add(tseg{verb: "q", val: stripConv(x.Call.Args[0])})
 					return
+				case sc.String() == "strconv.Itoa" || sc.String() == "strconv.FormatBool":
+					vb := "d"
+					if sc.String() == "strconv.FormatBool" {
+						vb = "t"
+					}
+					add(tseg{verb: vb, val: x.Call.Args[0]})
+					return
+				case sc.String() == "strconv.FormatInt" || sc.String() == "strconv.FormatUint":
+					if base, ok := constInt(x.Call.Args[1]); ok && base == 10 {
+						add(tseg{verb: "d", val: x.Call.Args[0]})
+						return
+					}
+				case sc.String() == "strconv.FormatFloat" || sc.String() == "strconv.FormatComplex":
+					f, ok1 := constInt(x.Call.Args[1])
+					prec, ok2 := constInt(x.Call.Args[2])
+					bits, ok3 := constInt(x.Call.Args[3])
+					if ok1 && ok2 && ok3 && f == 'g' && prec == -1 {
+						add(tseg{verb: "g", val: x.Call.Args[0], bits: int(bits)})
+						return
+					}
 				}
 			}
 		}
